@@ -343,6 +343,9 @@ func (c *Client) Connect() error {
 
 // Register sends a REGISTER packet to the MQTT-SN gateway.
 func (c *Client) Register(topic string) error {
+	if topic == "" {
+		return errors.New("empty topic name")
+	}
 	if len(topic) > pkts1.MaxPayloadLength {
 		return fmt.Errorf("topic name too long for an MQTT-SN packet: %d B", len(topic))
 	}
@@ -365,6 +368,9 @@ func (c *Client) Register(topic string) error {
 }
 
 func (c *Client) subscribe(topicName string, topicIDType uint8, topicID uint16, qos uint8, callback MessageHandlerFunc) error {
+	if topicIDType == pkts1.TIT_STRING && topicName == "" {
+		return errors.New("empty topic name")
+	}
 	if len(topicName) > pkts1.MaxPayloadLength {
 		return fmt.Errorf("topic name too long for an MQTT-SN packet: %d B", len(topicName))
 	}
@@ -404,6 +410,9 @@ func (c *Client) SubscribePredefined(topicID uint16, qos uint8, callback Message
 }
 
 func (c *Client) unsubscribe(topicName string, topicIDType uint8, topicID uint16) error {
+	if topicIDType == pkts1.TIT_STRING && topicName == "" {
+		return errors.New("empty topic name")
+	}
 	if len(topicName) > pkts1.MaxPayloadLength {
 		return fmt.Errorf("topic name too long for an MQTT-SN packet: %d B", len(topicName))
 	}
